@@ -22,8 +22,13 @@ def r1_exits(ctx, F):
         f = handler(F, name)
         nxt = calls_by_name(f, TRAMP % "iter_next")
         stop = calls_by_name(f, TRAMP % "iter_stop")
-        if len(nxt) != 1 or not stop:
-            ctx.bad("C12.R1", name + ":anchor", "anchor-missing: iter_next/iter_stop call not found", fn=f)
+        if len(nxt) != 1:
+            ctx.bad("C12.R1", name + ":anchor", "anchor-missing: iter_next call not found", fn=f)
+            continue
+        if not stop:
+            ctx.bad("C12.R1", name + ":exhaustion-stops-iterator",
+                    "the handler never calls iter_stop: when the iterator is exhausted the lock taken by iterate() is "
+                    "not released and the container stays locked after the loop ends", fn=f, line=nxt[0].line)
             continue
         none_e = outcome_edges(F, f, nxt[0], "None")
         some_e = outcome_edges(F, f, nxt[0], "Some")
